@@ -87,8 +87,16 @@ Align(a, target, r) ==
 AlignTie(a, target) == a = target - P \/ a = target + P
 NextOf(x, i) == X(x, (i % Len(x)) + 1)
 PrevOf(x, i) == X(x, ((i - 2) % Len(x)) + 1)
-AlgHi(x, i, r) == (X(x, i) + Align(NextOf(x, i), X(x, i), r)) \div 2
-AlgLo(x, i, r) == (Align(PrevOf(x, i), X(x, i), r) + X(x, i)) \div 2
+(* cell bounds: the aligned cyclic neighbour; a neighbour exactly half a period away (grids of two cells:
+   a tie of the alignment) is taken on the proper side.  As found in the repository the tie was not
+   resolved (AlgHiTwoCellAsFound): both bounds of a two-cell grid coincided, every cell had zero width and
+   all weights were 0/0; TwoCellAsFoundSound fails inside the documented domain; repaired. *)
+AlgHiTwoCellAsFound(x, i, r) == (X(x, i) + Align(NextOf(x, i), X(x, i), r)) \div 2
+AlgLoTwoCellAsFound(x, i, r) == (Align(PrevOf(x, i), X(x, i), r) + X(x, i)) \div 2
+AlgHi(x, i, r) == LET a == Align(NextOf(x, i), X(x, i), r)
+                  IN  (X(x, i) + (IF a <= X(x, i) THEN a + D ELSE a)) \div 2
+AlgLo(x, i, r) == LET a == Align(PrevOf(x, i), X(x, i), r)
+                  IN  ((IF a >= X(x, i) THEN a - D ELSE a) + X(x, i)) \div 2
 (* _periodic_overlap aligns the source interval [y0, y1] as a whole with the lower target bound
    (the lower end is aligned, the upper end follows).  As found in the repository the two ends
    were aligned separately (AlgOvAsFound), which tears apart an interval that straddles
@@ -201,6 +209,14 @@ AlgorithmSound == HasOv =>
    \A t \in 1..NT : \A s \in 1..NS : \A r \in BOOLEAN : AlgOv(t, s, r) = ov[t][s]
 AsFoundSound == HasOv =>
    \A t \in 1..NT : \A s \in 1..NS : \A r \in BOOLEAN : AlgOvAsFound(t, s, r) = ov[t][s]
+AlgOvTwoCellAsFound(t, s, r) ==
+                  LET x0 == AlgLoTwoCellAsFound(cfg.tgt, t, r)
+                      x1 == AlgHiTwoCellAsFound(cfg.tgt, t, r)
+                      y0 == Align(AlgLoTwoCellAsFound(cfg.src, s, r), x0, r)
+                      y1 == AlgHiTwoCellAsFound(cfg.src, s, r) + (y0 - AlgLoTwoCellAsFound(cfg.src, s, r))
+                  IN  Max(Min(x1, y1) - Max(x0, y0), 0)
+TwoCellAsFoundSound == HasOv =>
+   \A t \in 1..NT : \A s \in 1..NS : \A r \in BOOLEAN : AlgOvTwoCellAsFound(t, s, r) = ov[t][s]
 AsFoundSoundWhenSafe == (HasOv /\ Safe) =>
    \A t \in 1..NT : \A s \in 1..NS : \A r \in BOOLEAN : AlgOvAsFound(t, s, r) = ov[t][s]
 NonNegative == HasW => \A t \in 1..NT : \A s \in 1..NS : RLe(Zero, w[t][s])
